@@ -7,17 +7,23 @@ ID = "C12"
 RULE = ("NAL sequences (generated SPS, PPS referring to them, SEI message lists, slice NALs with payloads from 1 byte to 8 KiB, "
         "sometimes foreign NAL types) serialised with 3-/4-byte start codes and optional leading/trailing zero bytes, "
         "emulation prevention applied, pushed in partitions from {1,2,3,127,128,129,random,whole}, with Buffer/Ignore "
-        "policies; sometimes the parameter sets come from an AVC configuration record instead. observable per handler "
+        "policies; sometimes the parameter sets come from an AVC configuration record instead (some with a PPS whose explicit slice-group map needs emulation prevention). observable per handler "
         "invocation: bytes, completeness, parse result. cross-check: every complete NAL's parse result equals the same "
         "NAL parsed alone (separate commands in the same run). non-trivial = stream has >= 2 NALs")
 CORRESPONDENCE = "Model pipeline (AnnexB o Accum o RefNal o Rbsp o parsers o Context) vs AnnexBReader::accumulate"
 ASSUMPTIONS = ["composition of C01, C18, C08, C15, C02, C04-C06, C10, C19 (proved separately); the borrow plumbing is covered only by execution"]
 
 
-def make_stream(rng, big=False):
+def make_stream(rng, big=False, esc=False):
     nals = []
     s = g.gen_sps(rng, sps_id=rng.choice([0, 1]), small=True)
-    p = g.gen_pps(rng, s, pps_id=rng.choice([0, 3]))
+    if esc:
+        # a PPS whose NAL needs emulation prevention: explicit slice-group map (type 6) with long runs of group 0
+        p = g.gen_pps(rng, s, pps_id=rng.choice([0, 3]), force={"map_type": 6, "num_slice_groups_minus1": rng.choice([1, 3, 7]),
+                                                                 "npix": rng.choice([40, 100, 300])})
+        p["group_ids"] = [0 if rng.random() < 0.95 else rng.randrange(0, 1 << p["group_id_bits"]) for _ in p["group_ids"]]
+    else:
+        p = g.gen_pps(rng, s, pps_id=rng.choice([0, 3]))
     nals.append(g.sps_nal(s, rng))
     nals.append(g.pps_nal(p, rng))
     for _ in range(rng.randrange(1, 6)):
@@ -64,7 +70,7 @@ def gen(tier, rng):
     cases = []
     n = 300 if tier == "quick" else 8000
     for i in range(n):
-        s, p, nals = make_stream(rng, big=(i % 10 == 0))
+        s, p, nals = make_stream(rng, big=(i % 10 == 0), esc=(i % 10 == 5 or i % 7 == 3))
         avcc = "-"
         body = nals
         if i % 5 == 0:
